@@ -552,11 +552,6 @@ End L003.
 (* well-formed characters: what [decode] produces.  An ASCII byte occurs in the source bytes of a
    character only as that whole character (UTF-8 is self-synchronising). *)
 
-Definition wfc (c : ch) : Prop :=
-  raw c <> [] /\
-  (forall b, In b (raw c) -> b < 128 -> raw c = [b] /\ cp c = b) /\
-  (cp c < 128 -> raw c = [cp c]).
-Definition wft (t : list ch) : Prop := forall c, In c t -> wfc c.
 
 Lemma wfc_asc : forall b, wfc (asc b).
 Proof.
@@ -651,12 +646,6 @@ Proof.
 Qed.
 
 (* last character / last byte *)
-Fixpoint lastc {A} (l : list A) : option A :=
-  match l with
-  | [] => None
-  | [c] => Some c
-  | _ :: t => lastc t
-  end.
 
 Lemma lastc_cons : forall {A} (c : A) t, t <> [] -> lastc (c :: t) = lastc t.
 Proof. intros A c [|d t] H; [contradiction|reflexivity]. Qed.
@@ -713,7 +702,6 @@ Qed.
 (* ------------------------------------------------------------------------------------------------ *)
 (* L001: exact flagging, re-lint *)
 
-Definition ends_blank (l : list ch) : Prop := exists c, lastc l = Some c /\ is_blank c = true.
 
 Lemma l001_flag_spec : forall l, wft l -> l001_flag l = true <-> ends_blank l.
 Proof.
@@ -1135,21 +1123,20 @@ Qed.
 Section Conservation.
   Variable is_space : N -> bool.
 
-  (* whitespace: a Unicode space, the blanks of the cut set " \t", or the newline *)
-  Definition wsc (c : ch) : bool := spacec is_space c || is_blank c || is_nl c.
-  Definition ink (t : list ch) : list N := map cp (filter (fun c => negb (wsc c)) t).   (* the "ink" of a text *)
+  Notation wsc := (wsc is_space).
+  Notation ink := (ink is_space).
 
   Lemma ink_app : forall a b, ink (a ++ b) = ink a ++ ink b.
-  Proof. intros a b. unfold ink. rewrite filter_app, map_app. reflexivity. Qed.
+  Proof. intros a b. unfold Lint.ink. rewrite filter_app, map_app. reflexivity. Qed.
 
   Lemma ink_ws : forall a, forallb wsc a = true -> ink a = [].
   Proof.
     induction a as [|c a IH]; intro H; [reflexivity|]. cbn in H. apply andb_prop in H. destruct H as [H1 H2].
-    unfold ink. cbn [filter]. rewrite H1. cbn [negb]. apply IH. exact H2.
+    unfold Lint.ink. cbn [filter]. rewrite H1. cbn [negb]. apply IH. exact H2.
   Qed.
 
   Lemma wsc_nlc : wsc nlc = true.
-  Proof. unfold wsc. rewrite is_nl_nlc. rewrite orb_true_r. reflexivity. Qed.
+  Proof. unfold Lint.wsc. rewrite is_nl_nlc. rewrite orb_true_r. reflexivity. Qed.
 
   Lemma ink_join : forall ls, ink (join_nl ls) = flat_map ink ls.
   Proof.
@@ -1167,13 +1154,13 @@ Section Conservation.
   Qed.
 
   Lemma blank_wsc : forall c, is_blank c = true -> wsc c = true.
-  Proof. intros c H. unfold wsc. rewrite H. rewrite orb_true_r. reflexivity. Qed.
+  Proof. intros c H. unfold Lint.wsc. rewrite H. rewrite orb_true_r. reflexivity. Qed.
 
   Lemma ink_trim_r_blank : forall l, ink (trim_r is_blank l) = ink l.
   Proof.
     induction l as [|c t IH]; [reflexivity|]. rewrite trim_r_cons. destruct (trim_r is_blank t) as [|a r] eqn:E.
     - change (c :: t) with ([c] ++ t). rewrite ink_app. rewrite <- IH. cbn [ink filter map app]. rewrite app_nil_r.
-      destruct (is_blank c) eqn:Eb; [|reflexivity]. unfold ink. cbn [filter]. rewrite (blank_wsc c Eb). reflexivity.
+      destruct (is_blank c) eqn:Eb; [|reflexivity]. unfold Lint.ink. cbn [filter]. rewrite (blank_wsc c Eb). reflexivity.
     - change (c :: a :: r) with ([c] ++ a :: r). change (c :: t) with ([c] ++ t). rewrite !ink_app. rewrite IH. reflexivity.
   Qed.
 
@@ -1197,11 +1184,11 @@ Section Conservation.
   (* L010: only spaces are dropped; an undecodable byte is rewritten as U+FFFD (same code point) *)
   Lemma wsc_wr : forall c, is_nl c = false -> wsc (wr c) = wsc c.
   Proof.
-    intros c H. unfold wsc, spacec. rewrite cp_wr, is_blank_wr. rewrite H, (is_nl_wr c H). reflexivity.
+    intros c H. unfold Lint.wsc, spacec. rewrite cp_wr, is_blank_wr. rewrite H, (is_nl_wr c H). reflexivity.
   Qed.
 
   Lemma ink_wr : forall c, is_nl c = false -> ink [wr c] = ink [c].
-  Proof. intros c H. unfold ink. cbn [filter]. rewrite (wsc_wr c H). destruct (wsc c); cbn; [reflexivity|rewrite cp_wr; reflexivity]. Qed.
+  Proof. intros c H. unfold Lint.ink. cbn [filter]. rewrite (wsc_wr c H). destruct (wsc c); cbn; [reflexivity|rewrite cp_wr; reflexivity]. Qed.
 
   Lemma ink_cons : forall c t, ink (c :: t) = ink [c] ++ ink t.
   Proof. intros c t. change (c :: t) with ([c] ++ t). apply ink_app. Qed.
@@ -1215,7 +1202,7 @@ Section Conservation.
     - rewrite ink_cons, ink_wr, IH by assumption. reflexivity.
     - destruct (is_quote c); [rewrite ink_cons, ink_wr, IH by assumption; reflexivity|].
       destruct (is_sp c) eqn:Es.
-      + assert (Hw : ink [c] = []) by (apply ink_ws; cbn; unfold wsc, is_blank; rewrite Es; rewrite orb_true_r; reflexivity).
+      + assert (Hw : ink [c] = []) by (apply ink_ws; cbn; unfold Lint.wsc, is_blank; rewrite Es; rewrite orb_true_r; reflexivity).
         rewrite Hw. destruct ps; cbn [app]; [apply IH; exact Ht|].
         rewrite ink_cons, ink_wr, Hw, IH by assumption. reflexivity.
       + rewrite ink_cons, ink_wr, IH by assumption. reflexivity.
@@ -1240,8 +1227,8 @@ Section Conservation.
     intros l H. unfold trim_space in H. apply trim_r_nil_iff in H.
     rewrite <- (take_trim_l (spacec is_space) l). rewrite forallb_app. apply andb_true_intro. split.
     - apply forallb_forall. intros x Hx. pose proof (take_l_all (spacec is_space) l) as Ht. rewrite forallb_forall in Ht.
-      unfold wsc. rewrite (Ht x Hx). reflexivity.
-    - apply forallb_forall. intros x Hx. rewrite forallb_forall in H. unfold wsc. rewrite (H x Hx). reflexivity.
+      unfold Lint.wsc. rewrite (Ht x Hx). reflexivity.
+    - apply forallb_forall. intros x Hx. rewrite forallb_forall in H. unfold Lint.wsc. rewrite (H x Hx). reflexivity.
   Qed.
 
   Lemma ink_blank_line : forall l, blank_line is_space l = true -> ink l = [].
@@ -1275,11 +1262,10 @@ Section CaseOnly.
   Variable keywords : list (list N).
   Hypothesis up_idem : forall x u, upper_ascii x = Some u -> upper_ascii u = Some u.
 
-  (* case folding: a rune with an ASCII upper-case image is identified with that image *)
-  Definition fold (c : ch) : N := match upper_ascii (cp c) with Some u => u | None => cp c end.
+  Notation fold := (fold upper_ascii).
 
   Lemma fold_wr : forall c, fold (wr c) = fold c.
-  Proof. intro c. unfold fold. rewrite cp_wr. reflexivity. Qed.
+  Proof. intro c. unfold Lint.fold. rewrite cp_wr. reflexivity. Qed.
 
   Lemma fold_conv : forall w, map fold (conv_word upper_ascii keywords w) = map fold w.
   Proof.
@@ -1290,7 +1276,7 @@ Section CaseOnly.
     destruct (upper_ascii (cp c)) as [x|] eqn:Ex; [|discriminate].
     destruct (all_some (map (fun c0 => upper_ascii (cp c0)) w)) as [r|] eqn:Er; [|discriminate].
     inversion E; subst. cbn [map]. f_equal; [|apply IH; reflexivity].
-    unfold fold, asc. cbn [cp]. rewrite (up_idem _ _ Ex), Ex. reflexivity.
+    unfold Lint.fold, asc. cbn [cp]. rewrite (up_idem _ _ Ex), Ex. reflexivity.
   Qed.
 
   Lemma fold_scan : forall l,
@@ -1338,3 +1324,343 @@ Proof.
   induction m as [|[k w] m IH]; intros x v H; [discriminate|]. cbn [assoc] in H.
   destruct (k =? x) eqn:E; [apply N.eqb_eq in E; inversion H; subst; left; reflexivity|right; apply IH; exact H].
 Qed.
+
+(* ------------------------------------------------------------------------------------------------ *)
+(* the reading of a text as code is kept by every rewriter *)
+
+Section View.
+  Variable is_space : N -> bool.
+  Variable upper_ascii : N -> option N.
+  Notation wsc := (wsc is_space).
+  Notation fold := (fold upper_ascii).
+  Notation vt := (vt is_space upper_ascii).
+  Notation R := (R is_space upper_ascii).
+  Notation cview := (cview is_space upper_ascii).
+
+  Lemma R_app : forall a b Z, R (a ++ b) Z = R a (R b Z).
+  Proof. intros. unfold Lint.R. apply fold_right_app. Qed.
+  Lemma R_cons : forall c t Z, R (c :: t) Z = scons (vt c) (R t Z).
+  Proof. reflexivity. Qed.
+
+  Lemma scons_W_idem : forall Z, scons VW (scons VW Z) = scons VW Z.
+  Proof. intros [|[|n] Z]; reflexivity. Qed.
+
+  (* Z "absorbs" a separator: it is empty or starts with one *)
+  Definition absorbs (Z : list vtok) : Prop := scons VW Z = Z.
+  Lemma absorbs_scons : forall Z, absorbs (scons VW Z).
+  Proof. intro Z. apply scons_W_idem. Qed.
+  Lemma absorbs_nil : absorbs []. Proof. reflexivity. Qed.
+
+  Lemma R_ws : forall a Z, forallb wsc a = true -> a <> [] -> R a Z = scons VW Z.
+  Proof.
+    induction a as [|c a IH]; intros Z H Hne; [contradiction|]. cbn in H. apply andb_prop in H. destruct H as [H1 H2].
+    rewrite R_cons. unfold Lint.vt. rewrite H1. destruct a as [|d a]; [reflexivity|].
+    rewrite IH by (assumption || discriminate). apply scons_W_idem.
+  Qed.
+
+  Lemma R_ws_abs : forall a Z, forallb wsc a = true -> absorbs Z -> R a Z = Z.
+  Proof.
+    intros a Z H HZ. destruct a as [|c a]; [reflexivity|]. rewrite R_ws by (assumption || discriminate). exact HZ.
+  Qed.
+
+  Lemma vt_nlc : vt nlc = VW.
+  Proof. unfold Lint.vt. rewrite wsc_nlc. reflexivity. Qed.
+
+  (* reading of the lines of a text *)
+  Fixpoint RL (ls : list (list ch)) (Z : list vtok) : list vtok :=
+    match ls with
+    | [] => Z
+    | [x] => R x Z
+    | x :: r => R x (scons VW (RL r Z))
+    end.
+
+  Lemma RL_cons2 : forall x y r Z, RL (x :: y :: r) Z = R x (scons VW (RL (y :: r) Z)).
+  Proof. reflexivity. Qed.
+
+  Lemma R_join : forall ls Z, R (join_nl ls) Z = RL ls Z.
+  Proof.
+    induction ls as [|x r IH]; intro Z; [reflexivity|]. destruct r as [|y r]; [reflexivity|].
+    rewrite join_cons2, RL_cons2. rewrite R_app, R_cons, vt_nlc, IH. reflexivity.
+  Qed.
+
+  (* a rule that rewrites lines one by one keeps the reading when it keeps the reading of each line in
+     front of an absorbing continuation *)
+  Definition line_ok (f : list ch -> list ch) : Prop := forall l Z, absorbs Z -> R (f l) Z = R l Z.
+
+  Lemma RL_map : forall f ls Z, line_ok f -> absorbs Z -> RL (map f ls) Z = RL ls Z.
+  Proof.
+    intros f ls Z Hf HZ. induction ls as [|x r IH]; [reflexivity|]. destruct r as [|y r].
+    - cbn. apply Hf. exact HZ.
+    - cbn [map]. rewrite !RL_cons2. cbn [map] in IH. rewrite IH. apply Hf. apply absorbs_scons.
+  Qed.
+
+  Lemma cview_per_line : forall f t, line_ok f -> cview (per_line f t) = cview t.
+  Proof.
+    intros f t Hf. unfold Lint.cview, per_line. rewrite R_join. rewrite (RL_map f _ [] Hf absorbs_nil).
+    rewrite <- R_join. rewrite join_split. reflexivity.
+  Qed.
+
+  (* ---------------- L001 ---------------- *)
+  Lemma blanks_wsc : forall a, forallb is_blank a = true -> forallb wsc a = true.
+  Proof. intros a H. apply forallb_forall. intros x Hx. apply blank_wsc. rewrite forallb_forall in H. apply H. exact Hx. Qed.
+
+  Lemma trim_r_split : forall {A} (p : A -> bool) l, exists b, l = trim_r p l ++ b /\ forallb p b = true.
+  Proof.
+    intros A p. induction l as [|c t (b & E & Hb)].
+    - exists []. split; reflexivity.
+    - rewrite trim_r_cons. destruct (trim_r p t) as [|a r] eqn:Et.
+      + destruct (p c) eqn:Ec.
+        * exists (c :: t). split; [reflexivity|]. cbn. rewrite Ec. cbn in E. subst. exact Hb.
+        * exists b. split; [cbn in *; rewrite <- E; reflexivity|exact Hb].
+      + exists b. split; [rewrite E at 1; reflexivity|exact Hb].
+  Qed.
+
+  Lemma l001_line_ok : line_ok l001_fix_line.
+  Proof.
+    intros l Z HZ. unfold l001_fix_line. destruct (trim_r_split is_blank l) as (b & E & Hb).
+    rewrite E at 2. rewrite R_app. rewrite (R_ws_abs b Z (blanks_wsc b Hb) HZ). reflexivity.
+  Qed.
+
+  Theorem l001_cview : forall t, cview (l001_fix t) = cview t.
+  Proof. intro t. rewrite l001_fix_per_line. apply cview_per_line. exact l001_line_ok. Qed.
+
+  (* ---------------- L002 ---------------- *)
+  Lemma l002_line_ok : line_ok l002_fix_line.
+  Proof.
+    intros l Z HZ. rewrite l002_line_shape. rewrite <- (take_trim_l is_blank l) at 3. rewrite !R_app.
+    set (Y := R (trim_l is_blank l) Z).
+    destruct (take_l is_blank l) as [|c lw] eqn:E; [reflexivity|].
+    rewrite (R_ws (c :: lw) Y); [|rewrite <- E; apply blanks_wsc; apply take_l_all|discriminate].
+    apply R_ws.
+    - apply blanks_wsc. apply forallb_flat_map. intros x Hx. apply tab4_blank.
+      pose proof (take_l_all is_blank l) as H. rewrite E in H. rewrite forallb_forall in H. apply H. exact Hx.
+    - cbn [flat_map]. unfold tab4 at 1. destruct (is_tab c); discriminate.
+  Qed.
+
+  Theorem l002_cview : forall t, cview (l002_fix t) = cview t.
+  Proof. intro t. change (l002_fix t) with (per_line l002_fix_line t). apply cview_per_line. exact l002_line_ok. Qed.
+
+  Lemma strip_lead_scons : forall X, strip_lead (scons VW X) = strip_lead X.
+  Proof. intros [|[|n] X]; reflexivity. Qed.
+
+  Lemma RL_cons_abs : forall x r Z, absorbs Z -> RL (x :: r) Z = R x (scons VW (RL r Z)).
+  Proof. intros x [|y r] Z HZ; [cbn [RL]; unfold absorbs in HZ; rewrite HZ; reflexivity|reflexivity]. Qed.
+
+  Lemma sW_R_ws : forall a X, forallb wsc a = true -> scons VW (R a X) = scons VW X.
+  Proof.
+    intros a X H. destruct a as [|c a]; [reflexivity|]. rewrite R_ws by (assumption || discriminate). apply scons_W_idem.
+  Qed.
+
+  (* ---------------- L003 ---------------- *)
+  Lemma blank_line_wsc : forall l, blank_line is_space l = true -> forallb wsc l = true.
+  Proof.
+    intros l H. apply trim_space_nil_ws. unfold blank_line in H. destruct (trim_space is_space l); [reflexivity|discriminate].
+  Qed.
+
+  Lemma RL_pass : forall mx ls cnt Z, absorbs Z ->
+    scons VW (RL (l003_pass is_space mx cnt ls) Z) = scons VW (RL ls Z).
+  Proof.
+    intros mx. induction ls as [|x r IH]; intros cnt Z HZ; [reflexivity|].
+    cbn [l003_pass]. rewrite (RL_cons_abs x r Z HZ). destruct (blank_line is_space x) eqn:Eb.
+    - rewrite (sW_R_ws x _ (blank_line_wsc x Eb)). rewrite scons_W_idem.
+      destruct (S cnt <=? mx)%nat.
+      + rewrite (RL_cons_abs x _ Z HZ). rewrite (sW_R_ws x _ (blank_line_wsc x Eb)). rewrite scons_W_idem. apply IH. exact HZ.
+      + apply IH. exact HZ.
+    - rewrite (RL_cons_abs x _ Z HZ). rewrite (IH 0%nat Z HZ). reflexivity.
+  Qed.
+
+  Theorem l003_cview : forall mx t, cview (l003_fix_mx is_space mx t) = cview t.
+  Proof.
+    intros mx t. unfold Lint.cview, l003_fix_mx. fold (l003_lines is_space mx (split_nl t)). rewrite l003_lines_eq.
+    rewrite R_join. rewrite <- strip_lead_scons. rewrite (RL_pass mx _ 0%nat [] absorbs_nil).
+    rewrite strip_lead_scons. rewrite <- R_join. rewrite join_split. reflexivity.
+  Qed.
+
+  (* ---------------- rules that need newline-free lines ---------------- *)
+  Lemma RL_map_nonl : forall f ls Z, (forall l Y, no_nl l -> absorbs Y -> R (f l) Y = R l Y) -> Forall no_nl ls -> absorbs Z ->
+    RL (map f ls) Z = RL ls Z.
+  Proof.
+    intros f ls Z Hf Hall HZ. induction Hall as [|x r Hx Hr IH]; [reflexivity|].
+    cbn [map]. rewrite (RL_cons_abs _ _ Z HZ), (RL_cons_abs x r Z HZ). rewrite IH. apply Hf; [exact Hx|apply absorbs_scons].
+  Qed.
+
+  Lemma cview_per_line_nonl : forall f t, (forall l Y, no_nl l -> absorbs Y -> R (f l) Y = R l Y) -> cview (per_line f t) = cview t.
+  Proof.
+    intros f t Hf. unfold Lint.cview, per_line. rewrite R_join. rewrite (RL_map_nonl f _ [] Hf (split_no_nl t) absorbs_nil).
+    rewrite <- R_join. rewrite join_split. reflexivity.
+  Qed.
+
+  Lemma vt_wr : forall c, is_nl c = false -> vt (wr c) = vt c.
+  Proof. intros c H. unfold Lint.vt. rewrite (wsc_wr is_space c H). rewrite fold_wr. reflexivity. Qed.
+
+  (* ---------------- L010 ---------------- *)
+  Definition sif (b : bool) (X : list vtok) : list vtok := if b then scons VW X else X.
+
+  Lemma sp_vt : forall c, is_sp c = true -> vt c = VW.
+  Proof. intros c H. unfold Lint.vt, Lint.wsc, is_blank. rewrite H. rewrite orb_true_r. reflexivity. Qed.
+
+  Lemma R_l010_scan : forall l Z, no_nl l ->
+    (forall k, R (l010_scan (Some k) false l) Z = R l Z) /\
+    (forall ps, sif ps (R (l010_scan None ps l) Z) = sif ps (R l Z)).
+  Proof.
+    induction l as [|c t IH]; intros Z H; [split; reflexivity|].
+    assert (Hc : is_nl c = false) by (apply H; left; reflexivity).
+    assert (Ht : no_nl t) by (intros x Hx; apply H; right; exact Hx).
+    destruct (IH Z Ht) as [IHq IHn]. split.
+    - intro k. cbn [l010_scan]. rewrite !R_cons. rewrite (vt_wr c Hc). f_equal.
+      destruct (cp c =? k); [exact (IHn false)|apply IHq].
+    - intro ps. cbn [l010_scan]. destruct (is_quote c).
+      + rewrite !R_cons. rewrite (vt_wr c Hc). rewrite IHq. reflexivity.
+      + destruct (is_sp c) eqn:Es.
+        * rewrite (R_cons c t). rewrite (sp_vt c Es). destruct ps; cbn [app sif].
+          -- rewrite scons_W_idem. exact (IHn true).
+          -- rewrite R_cons. rewrite (vt_wr c Hc), (sp_vt c Es). exact (IHn true).
+        * rewrite !R_cons. rewrite (vt_wr c Hc). rewrite (IHn false : R _ _ = R _ _). reflexivity.
+  Qed.
+
+  Lemma l010_line_R : forall l Y, no_nl l -> absorbs Y -> R (l010_fix_line l) Y = R l Y.
+  Proof.
+    intros l Y H _. unfold l010_fix_line. destruct (trim_l is_blank l) as [|c rest] eqn:E.
+    - destruct (R_l010_scan l Y H) as [_ Hn]. exact (Hn false).
+    - rewrite R_app. assert (Hr : no_nl (c :: rest)) by (intros x Hx; apply H; eapply trim_l_incl; rewrite E; exact Hx).
+      destruct (R_l010_scan (c :: rest) Y Hr) as [_ Hn]. rewrite (Hn false : R _ _ = R _ _).
+      rewrite <- E. rewrite <- R_app. rewrite take_trim_l. reflexivity.
+  Qed.
+
+  Theorem l010_cview : forall t, cview (l010_fix t) = cview t.
+  Proof. intro t. change (l010_fix t) with (per_line l010_fix_line t). apply cview_per_line_nonl. exact l010_line_R. Qed.
+
+  (* ---------------- L007 ---------------- *)
+  Section L007v.
+    Variables is_letter is_digit : N -> bool.
+    Variable keywords : list (list N).
+    Hypothesis up_idem : forall x u, upper_ascii x = Some u -> upper_ascii u = Some u.
+    (* a rune with an ASCII upper-case image is not white space *)
+    Hypothesis up_nows : forall x u, upper_ascii x = Some u -> is_space x = false /\ x <> 32 /\ x <> 9 /\ x <> 10.
+
+    Lemma up_not_wsc : forall c u, upper_ascii (cp c) = Some u -> wsc c = false.
+    Proof.
+      intros c u H. destruct (up_nows _ _ H) as (S1 & S2 & S3 & S4). unfold Lint.wsc, spacec, is_blank, is_sp, is_tab, is_nl.
+      rewrite S1. apply N.eqb_neq in S2. apply N.eqb_neq in S3. apply N.eqb_neq in S4. rewrite S2, S3, S4. reflexivity.
+    Qed.
+
+    Lemma vt_conv : forall w, map vt (conv_word upper_ascii keywords w) = map vt w.
+    Proof.
+      intro w. unfold conv_word, kw_of.
+      destruct (all_some (map (fun c => upper_ascii (cp c)) w)) as [u|] eqn:E; [|reflexivity].
+      destruct (existsb (list_eqb u) keywords); [|reflexivity].
+      revert u E. induction w as [|c w IH]; intros u E; cbn in E; [inversion E; reflexivity|].
+      destruct (upper_ascii (cp c)) as [x|] eqn:Ex; [|discriminate].
+      destruct (all_some (map (fun c0 => upper_ascii (cp c0)) w)) as [r|] eqn:Er; [|discriminate].
+      inversion E; subst. cbn [map]. f_equal; [|apply IH; reflexivity].
+      unfold Lint.vt. rewrite (up_not_wsc c x Ex).
+      assert (Ea : upper_ascii (cp (asc x)) = Some x) by (cbn [asc cp]; exact (up_idem _ _ Ex)).
+      rewrite (up_not_wsc (asc x) x Ea). unfold Lint.fold. rewrite Ea, Ex. reflexivity.
+    Qed.
+
+    Lemma vt_scan : forall l, no_nl l ->
+      (forall k, map vt (l007_scan is_letter is_digit upper_ascii keywords (Some k) None l) = map vt l) /\
+      (forall cur, map vt (l007_scan is_letter is_digit upper_ascii keywords None cur l)
+                   = map vt (match cur with Some w => rev w | None => [] end ++ l)).
+    Proof.
+      induction l as [|c t IH]; intro H.
+      - split; [reflexivity|]. intro cur. cbn [l007_scan]. destruct cur as [w|]; [rewrite vt_conv, app_nil_r; reflexivity|reflexivity].
+      - assert (Hc : is_nl c = false) by (apply H; left; reflexivity).
+        assert (Ht : no_nl t) by (intros x Hx; apply H; right; exact Hx).
+        destruct (IH Ht) as [IHq IHn]. split.
+        + intro k. cbn [l007_scan map]. rewrite (vt_wr c Hc). f_equal. destruct (cp c =? k); [rewrite IHn; reflexivity|apply IHq].
+        + intro cur. cbn [l007_scan].
+          assert (Fl : map vt (match cur with Some w => conv_word upper_ascii keywords (rev w) | None => [] end)
+                       = map vt (match cur with Some w => rev w | None => [] end)).
+          { destruct cur; [apply vt_conv|reflexivity]. }
+          destruct (is_quote c).
+          * rewrite !map_app. rewrite Fl. cbn [map]. rewrite (vt_wr c Hc), IHq. reflexivity.
+          * destruct (word_start is_letter c || match cur with Some _ => true | None => false end && is_digit (cp c)).
+            -- rewrite IHn. cbn [rev]. destruct cur as [w|]; cbn [rev app]; rewrite ?map_app; cbn [map]; rewrite ?(vt_wr c Hc); rewrite <- ?app_assoc; reflexivity.
+            -- rewrite !map_app. rewrite Fl. cbn [map]. rewrite (vt_wr c Hc), IHn. reflexivity.
+    Qed.
+
+    Lemma R_map_vt : forall a b Z, map vt a = map vt b -> R a Z = R b Z.
+    Proof.
+      induction a as [|c a IH]; intros b Z H; destruct b as [|d b]; try discriminate; [reflexivity|].
+      cbn [map] in H. inversion H. rewrite !R_cons. rewrite H1. f_equal. apply IH. assumption.
+    Qed.
+
+    Theorem l007_cview : forall t, cview (l007_fix is_letter is_digit upper_ascii keywords t) = cview t.
+    Proof.
+      intro t. unfold l007_fix. apply (cview_per_line_nonl (l007_fix_line is_letter is_digit upper_ascii keywords)).
+      intros l Y Hl _. apply R_map_vt. unfold l007_fix_line. destruct (vt_scan l Hl) as [_ Hn]. rewrite (Hn None). reflexivity.
+    Qed.
+  End L007v.
+
+  (* ---------------- formatSQL ---------------- *)
+  Lemma spacec_wsc : forall a, forallb (spacec is_space) a = true -> forallb wsc a = true.
+  Proof.
+    intros a H. apply forallb_forall. intros x Hx. rewrite forallb_forall in H. unfold Lint.wsc. rewrite (H x Hx). reflexivity.
+  Qed.
+
+  Lemma trim_space_split : forall l, exists a b, l = a ++ trim_space is_space l ++ b /\ forallb wsc a = true /\ forallb wsc b = true.
+  Proof.
+    intro l. unfold trim_space. destruct (trim_r_split (spacec is_space) (trim_l (spacec is_space) l)) as (b & E & Hb).
+    exists (take_l (spacec is_space) l), b. split; [|split].
+    - rewrite <- E. symmetry. apply take_trim_l.
+    - apply spacec_wsc. apply take_l_all.
+    - apply spacec_wsc. exact Hb.
+  Qed.
+
+  Lemma fmt_next_blank : forall ind cur tr, forallb is_blank ind = true -> forallb is_blank cur = true ->
+    forallb is_blank (fmt_next_indent upper_ascii ind cur tr) = true.
+  Proof.
+    intros ind cur tr Hi Hc. unfold fmt_next_indent.
+    destruct (existsb _ fmt_reset); [reflexivity|]. destruct (existsb _ fmt_indent); [exact Hi|].
+    destruct (existsb _ fmt_reset2); [reflexivity|exact Hc].
+  Qed.
+
+  Lemma RL_fmt : forall ind ls cur Z, forallb is_blank ind = true -> forallb is_blank cur = true -> absorbs Z ->
+    scons VW (RL (fmt_lines is_space upper_ascii ind cur ls) Z) = scons VW (RL ls Z).
+  Proof.
+    intros ind. induction ls as [|x r IH]; intros cur Z Hi Hc HZ; [reflexivity|].
+    cbn [fmt_lines]. rewrite (RL_cons_abs x r Z HZ).
+    destruct (trim_space_split x) as (a & b & E & Ha & Hb).
+    destruct (trim_space is_space x) as [|c tr] eqn:Et.
+    - rewrite E. cbn [app]. rewrite R_app. rewrite (R_ws_abs b _ Hb (absorbs_scons _)).
+      rewrite (sW_R_ws a _ Ha). rewrite scons_W_idem. apply IH; assumption.
+    - set (cur' := fmt_next_indent upper_ascii ind cur (c :: tr)).
+      assert (Hc' : forallb is_blank cur' = true) by (apply fmt_next_blank; assumption).
+      rewrite (RL_cons_abs _ _ Z HZ). rewrite R_app. rewrite (sW_R_ws cur' _ (blanks_wsc cur' Hc')).
+      rewrite (IH cur' Z Hi Hc' HZ).
+      rewrite E. rewrite !R_app. rewrite (R_ws_abs b _ Hb (absorbs_scons _)). rewrite (sW_R_ws a _ Ha). reflexivity.
+  Qed.
+
+  Theorem format_cview : forall tab spaces final t, cview (format_sql is_space upper_ascii tab spaces final t) = cview t.
+  Proof.
+    intros tab spaces final t. unfold format_sql.
+    set (ind := if spaces then repeat spc tab else [asc 9]).
+    assert (Hi : forallb is_blank ind = true).
+    { unfold ind. destruct spaces; [|reflexivity]. induction tab as [|n IH]; [reflexivity|cbn; exact IH]. }
+    set (f := join_nl (fmt_lines is_space upper_ascii ind [] (split_nl t))).
+    assert (Ef : cview f = cview t).
+    { unfold Lint.cview, f. rewrite R_join. rewrite <- strip_lead_scons. rewrite (RL_fmt ind _ [] [] Hi eq_refl absorbs_nil).
+      rewrite strip_lead_scons. rewrite <- R_join. rewrite join_split. reflexivity. }
+    destruct (final && negb (ends_nl f)); [|exact Ef].
+    unfold Lint.cview. rewrite R_app. cbn [Lint.R fold_right]. rewrite vt_nlc. cbn [scons]. exact Ef.
+  Qed.
+End View.
+
+Section CliView.
+  Variables is_letter is_digit is_space : N -> bool.
+  Variable upper_ascii : N -> option N.
+  Variable keywords : list (list N).
+  Hypothesis up_idem : forall x u, upper_ascii x = Some u -> upper_ascii u = Some u.
+  Hypothesis up_nows : forall x u, upper_ascii x = Some u -> is_space x = false /\ x <> 32 /\ x <> 9 /\ x <> 10.
+
+  Theorem cli_cview : forall t,
+    cview is_space upper_ascii (cli_fix is_letter is_digit is_space upper_ascii keywords t) = cview is_space upper_ascii t.
+  Proof.
+    intro t. unfold cli_fix.
+    rewrite (l007_cview is_space upper_ascii is_letter is_digit keywords up_idem up_nows).
+    rewrite l010_cview. unfold l003_fix. rewrite l003_cview. rewrite l002_cview. apply l001_cview.
+  Qed.
+
+  (* the ink is determined by the reading when case is folded; for the CLI loop both conservation laws combine *)
+End CliView.
